@@ -28,6 +28,7 @@ pub type JwkThumbprintSha256 = [u8; SHA256_LEN];
 ///
 /// [More Info](https://tools.ietf.org/html/rfc7517#section-4)
 #[derive(Clone, Debug, PartialEq, Eq, serde::Deserialize, serde::Serialize)]
+#[serde(try_from = "JwkDeserialized")]
 pub struct Jwk {
   /// Key Type.
   ///
@@ -99,6 +100,47 @@ pub struct Jwk {
   /// [More Info](https://tools.ietf.org/html/rfc7517#section-4)
   #[serde(flatten)]
   pub(super) params: JwkParams,
+}
+
+/// Deserialization helper with the same shape as [`Jwk`]: the parameters are an untagged enum,
+/// so the declared `kty` has to be checked against the family that was actually parsed.
+#[derive(serde::Deserialize)]
+struct JwkDeserialized {
+  kty: JwkType,
+  #[serde(rename = "use")]
+  use_: Option<JwkUse>,
+  key_ops: Option<Vec<JwkOperation>>,
+  alg: Option<String>,
+  kid: Option<String>,
+  x5u: Option<Url>,
+  x5c: Option<Vec<String>>,
+  x5t: Option<String>,
+  #[serde(rename = "x5t#S256")]
+  x5t_s256: Option<String>,
+  #[serde(flatten)]
+  params: JwkParams,
+}
+
+impl TryFrom<JwkDeserialized> for Jwk {
+  type Error = Error;
+
+  fn try_from(other: JwkDeserialized) -> Result<Self> {
+    if other.kty != other.params.kty() {
+      return Err(Error::InvalidParam("`params` type does not match `kty`"));
+    }
+    Ok(Self {
+      kty: other.kty,
+      use_: other.use_,
+      key_ops: other.key_ops,
+      alg: other.alg,
+      kid: other.kid,
+      x5u: other.x5u,
+      x5c: other.x5c,
+      x5t: other.x5t,
+      x5t_s256: other.x5t_s256,
+      params: other.params,
+    })
+  }
 }
 
 impl Jwk {
